@@ -268,3 +268,17 @@ Corollary continuation_at_end_lf c : (c =? 92)%N = false -> css_unescape [c; 92;
 Proof. intros Hc. rewrite literal_step by exact Hc. rewrite continuation_lf. reflexivity. Qed.
 Corollary escaped_eof_only_at_end : css_unescape [92]%N true = [65533]%N.
 Proof. reflexivity. Qed.
+
+(* a value made of line continuations only is the EMPTY value, whatever follows is unescaped on its own (any number of them;
+   a bare CR is left out because CR followed by LF is one newline unit) *)
+Inductive cont : str -> Prop :=
+| K_lf : cont [92; 10]%N
+| K_ff : cont [92; 12]%N
+| K_crlf : cont [92; 13; 10]%N.
+Theorem only_continuations_is_empty l y : Forall cont l -> css_unescape (concat l ++ y) true = css_unescape y true.
+Proof.
+  induction 1 as [|k l Hk _ IH]; [reflexivity|]. cbn [concat]. rewrite <- app_assoc.
+  destruct Hk; cbn [app]; [rewrite continuation_lf | rewrite continuation_ff | rewrite continuation_crlf]; exact IH.
+Qed.
+Corollary continuations_only l : Forall cont l -> css_unescape (concat l) true = [].
+Proof. intros H. rewrite <- (app_nil_r (concat l)). rewrite only_continuations_is_empty by exact H. reflexivity. Qed.
